@@ -7,6 +7,7 @@ import (
 	"os"
 	"runtime/debug"
 	"strconv"
+	"time"
 
 	"verif/internal/checks"
 	"verif/internal/core"
@@ -32,14 +33,37 @@ func main() {
 			ctx.Seed = n
 		}
 	}
-	var fatal error
-	func() {
-		defer func() {
-			if r := recover(); r != nil {
-				fatal = fmt.Errorf("checker panic: %v\n%s", r, debug.Stack())
-			}
+	// a check that does not finish is not a verdict: it fails like any other undecided obligation
+	limit := 45 * time.Minute
+	if *tier == "thorough" {
+		limit = 6 * time.Hour
+	}
+	if s := os.Getenv("ADCHECK_TIMEOUT_S"); s != "" {
+		if n, err := strconv.ParseInt(s, 10, 64); err == nil && n > 0 {
+			limit = time.Duration(n) * time.Second
+		}
+	}
+	done := make(chan error, 1)
+	go func() {
+		var fatal error
+		func() {
+			defer func() {
+				if r := recover(); r != nil {
+					fatal = fmt.Errorf("checker panic: %v\n%s", r, debug.Stack())
+				}
+			}()
+			fatal = f(ctx)
 		}()
-		fatal = f(ctx)
+		done <- fatal
 	}()
-	os.Exit(ctx.Finish(fatal))
+	select {
+	case fatal := <-done:
+		os.Exit(ctx.Finish(fatal))
+	case <-time.After(limit):
+		fmt.Printf("UNDECIDED the check did not finish within %s: the analysed code drives an interpretation that does not terminate in reasonable time\n", limit)
+		_ = os.MkdirAll(*verif+"/evidence", 0o755)
+		_ = os.WriteFile(fmt.Sprintf("%s/evidence/%s.timeout", *verif, *prop), []byte(fmt.Sprintf("{\"property_id\": %q, \"tier\": %q, \"undecided\": \"check did not finish within %s\"}\n", *prop, *tier, limit)), 0o644)
+		fmt.Printf("VIOLATION property=%s replay=%s/evidence/%s.timeout\n", *prop, *verif, *prop)
+		os.Exit(1)
+	}
 }
